@@ -37,7 +37,7 @@ Theorem quoted_chars_are_literal : forall (nq : bool) (c : achar) (l : list acha
 Proof. exact quoted_chars_literal_l. Qed.
 
 (* ... and a literal pattern character at the top level of a component is an ordinary character whatever it is *)
-Theorem literal_char_is_literal_atom : forall (c : N) (l : list pchar), parse_atoms 0 (Literal c :: l) = option_map (cons (AChar c)) (parse_atoms 0 l).
+Theorem literal_char_is_literal_atom : forall (c : N) (l : list pchar), parse_atoms 0 (Literal c :: l) = AChar c :: parse_atoms 0 l.
 Proof. exact parse_literal_head. Qed.
 
 (* a component that is not scanned (no pattern, or an invalid one) stands for its own text with the quotes removed *)
@@ -45,7 +45,7 @@ Theorem literal_component_is_text : forall (c : list achar) (l : str), compile_c
 Proof. exact literal_is_text. Qed.
 
 (* with noglob, or when nothing is expected, the result is the field itself with quotes removed; otherwise it is the non-empty list of pathnames *)
-Theorem glob_fallback_iff_empty_or_noglob : forall (t : fs) (cwd : str) (field : list achar), glob_model t cwd true field = GFields [unquote field] /\ (field_supported field = true -> (forall p : str, ~ ExpectedL t cwd field p) -> glob_model t cwd false field = GFields [unquote field]) /\ (field_supported field = true -> forall p : str, ExpectedL t cwd field p -> glob_model t cwd false field = GFields (glob_paths t cwd field) /\ In p (glob_paths t cwd field)).
+Theorem glob_fallback_iff_empty_or_noglob : forall (t : fs) (cwd : str) (field : list achar), glob_model t cwd true field = GFields [unquote field] /\ ((forall p : str, ~ ExpectedL t cwd field p) -> glob_model t cwd false field = GFields [unquote field]) /\ (forall p : str, ExpectedL t cwd field p -> glob_model t cwd false field = GFields (glob_paths t cwd field) /\ In p (glob_paths t cwd field)).
 Proof. exact glob_fallback_l. Qed.
 
 (* the model's matcher (backtracking, leading-period test of Pattern::is_match) decides the declarative matching relation *)
@@ -56,12 +56,16 @@ Proof. exact pat_is_match_spec. Qed.
 Theorem oracle_matcher_decides : forall (p : list atom) (name : str), pmatchb p name = true <-> PMatch p name.
 Proof. exact pmatchb_spec. Qed.
 
+(* character classes, collating symbols and equivalence classes in bracket expressions: [[:digit:]] matches 7 and not a; [[.ab.]x] matches the two characters ab, and x, but not a alone; in a complemented list the element ab is dropped (a list of nothing else matches any character); an undefined class, an empty symbol, a class as range endpoint are not patterns (the component is literal); [[=a=]-c] is the range a-c *)
+Theorem bracket_elements_examples : (let pat s := compile_comp (soft_field s) in let m s n := match pat s with CPat p => Some (pat_is_match p n) | CLit _ => None end in m [91; 91; 58; 100; 105; 103; 105; 116; 58; 93; 93] [55] = Some true /\ m [91; 91; 58; 100; 105; 103; 105; 116; 58; 93; 93] [97] = Some false /\ m [91; 91; 46; 97; 98; 46; 93; 120; 93] [97; 98] = Some true /\ m [91; 91; 46; 97; 98; 46; 93; 120; 93] [120] = Some true /\ m [91; 91; 46; 97; 98; 46; 93; 120; 93] [97] = Some false /\ m [91; 33; 91; 46; 97; 98; 46; 93; 120; 93] [97] = Some true /\ m [91; 33; 91; 46; 97; 98; 46; 93; 93] [97] = Some true /\ m [91; 91; 58; 102; 111; 111; 58; 93; 93] [97] = None /\ m [91; 91; 46; 46; 93; 93] [97] = None /\ m [91; 97; 45; 91; 58; 97; 108; 112; 104; 97; 58; 93; 93] [97] = None /\ m [91; 91; 61; 97; 61; 93; 45; 99; 93] [98] = Some true /\ m [91; 91; 61; 97; 61; 93; 45; 99; 93] [100] = Some false)%N.
+Proof. exact bracket_elements_examples_l. Qed.
+
 (* the oracle's generate-and-test enumeration yields exactly the expected pathnames *)
 Theorem oracle_enumeration_exact : forall (t : fs) (cwd : str) (field : list achar) (p : str), In p (spec_paths (fs_opendir t cwd) (fs_lstat t cwd) (fs_universe t) field) <-> ExpectedL t cwd field p.
 Proof. exact spec_paths_correct_l. Qed.
 
-(* oracle soundness: the run-time oracle accepts the model's output on every well-formed tree and supported field (it asks no more than the theorems give) *)
-Theorem oracle_accepts_model : forall (t : fs) (cwd : str) (noglob : bool) (field : list achar), wf_fs t = true -> field_supported field = true -> fs_oracle t cwd noglob field (glob_model t cwd noglob field) = None.
+(* oracle soundness: the run-time oracle accepts the model's output on every well-formed tree and every field (it asks no more than the theorems give) *)
+Theorem oracle_accepts_model : forall (t : fs) (cwd : str) (noglob : bool) (field : list achar), wf_fs t = true -> fs_oracle t cwd noglob field (glob_model t cwd noglob field) = None.
 Proof. exact oracle_accepts_model_l. Qed.
 
 (* ---- non-vacuity: concrete, non-trivial instances of the hypotheses ---- *)
@@ -75,10 +79,9 @@ Proof. split; vm_compute; reflexivity. Qed.
 (* glob_complete / glob_fallback / oracle_accepts_model: an expected pathname, last component literal *)
 Example ex_expected :
   ExpectedL ex_tree [] (soft_field [42; 47; 97]%N) [115; 117; 98; 47; 97]%N
-  /\ fs_lstat ex_tree [] [115; 117; 98; 47; 97]%N = true
-  /\ field_supported (soft_field [42; 47; 97]%N) = true.
+  /\ fs_lstat ex_tree [] [115; 117; 98; 47; 97]%N = true.
 Proof.
-  split; [apply oracle_enumeration_exact; vm_compute; left; reflexivity | split; vm_compute; reflexivity].
+  split; [apply oracle_enumeration_exact; vm_compute; left; reflexivity | vm_compute; reflexivity].
 Qed.
 
 (* glob_no_dot_dotdot_from_wildcard: `.*` is a pattern that matches the entries . and .. of the listing *)
@@ -114,5 +117,6 @@ Print Assumptions literal_component_is_text.
 Print Assumptions glob_fallback_iff_empty_or_noglob.
 Print Assumptions pattern_matcher_decides.
 Print Assumptions oracle_matcher_decides.
+Print Assumptions bracket_elements_examples.
 Print Assumptions oracle_enumeration_exact.
 Print Assumptions oracle_accepts_model.
